@@ -40,10 +40,12 @@ func CopyHeaders(proxyReq, originalReq *http.Request) {
 	if proxyReq.Header == nil {
 		proxyReq.Header = make(http.Header, len(originalReq.Header))
 	}
+	// headers the client names in Connection are hop-by-hop for this connection as well (RFC 7230 section 6.1)
+	nominated := connectionNominatedHeaders(originalReq.Header)
 	for header, values := range originalReq.Header {
 		// Skip hop-by-hop headers as per RFC 2616 section 13.5.1
 		// these headers are connection-specific and shouldn't be forwarded
-		if isHopByHopHeader(header) {
+		if isHopByHopHeader(header) || nominated[http.CanonicalHeaderKey(header)] {
 			continue
 		}
 
@@ -89,6 +91,28 @@ func CopyHeaders(proxyReq, originalReq *http.Request) {
 
 	// Update or set X-Forwarded headers
 	updateForwardedHeaders(proxyReq, originalReq)
+}
+
+// connectionNominatedHeaders returns the (canonical) names of the headers listed in the request's
+// Connection header lines; nil when there are none.
+func connectionNominatedHeaders(h http.Header) map[string]bool {
+	var nominated map[string]bool
+	for key, lines := range h {
+		if !strings.EqualFold(key, "Connection") {
+			continue
+		}
+		for _, line := range lines {
+			for _, name := range strings.Split(line, ",") {
+				if name = strings.TrimSpace(name); name != "" {
+					if nominated == nil {
+						nominated = make(map[string]bool)
+					}
+					nominated[http.CanonicalHeaderKey(name)] = true
+				}
+			}
+		}
+	}
+	return nominated
 }
 
 // joinedHeaderValues returns every value the client sent for a header, across all of its
